@@ -11,6 +11,7 @@ import (
 	"fmt"
 	"hash/crc32"
 	"sort"
+	"strings"
 
 	bs "github.com/danthegoodman1/bloomsearch"
 )
@@ -39,6 +40,7 @@ type FileObs struct {
 }
 
 type History struct {
+	PadBytes int // when > 0 every generated row gets a compressible filler of up to this many bytes
 	Env      *Env
 	TM       tokMode
 	PartMode string
@@ -139,6 +141,10 @@ func (h *History) genHistRow(r Rng) *StoredRow {
 			}
 			row[k] = nc.Go
 		}
+	}
+	if h.PadBytes > 0 {
+		// a compressible filler: makes the compressed and uncompressed block sizes differ a lot
+		row["zpad"] = strings.Repeat("q", r.IntN(h.PadBytes))
 	}
 	sr := &StoredRow{ID: h.nextID, Go: row, Vals: map[string]NumCase{}}
 	if pf := h.Env.Cfg.PartitionFunc; pf != nil {
